@@ -83,8 +83,8 @@ static const char *const rk_names[RK__COUNT] = { "send",          "send_dnsrec",
                                                  "search",        "search_dnsrec", "getaddrinfo", "gethostbyname",
                                                  "gethostbyaddr", "getnameinfo" };
 
-enum { RA_NONE = 0, RA_START1, RA_START2, RA_CANCEL, RA_READONLY, RA_START_SAME, RA__COUNT };
-static const char *const ra_names[RA__COUNT] = { "none", "start1", "start2", "cancel", "readonly", "start-same" };
+enum { RA_NONE = 0, RA_START1, RA_START2, RA_CANCEL, RA_READONLY, RA_START_SAME, RA_SETSERVERS, RA__COUNT };
+static const char *const ra_names[RA__COUNT] = { "none", "start1", "start2", "cancel", "readonly", "start-same", "set-servers" };
 
 #define APP_MAXTOK 256
 #define APP_MAXSER 2048
@@ -300,6 +300,7 @@ static void tok_digest_dnsrec(app_tok_t *t, const ares_dns_record_t *rec)
 }
 
 /* ------------------------------------------------------------------ callbacks */
+static void app_set_servers_now(int arg, int quiescent);
 static void app_reentrant(app_tok_t *t)
 {
   int k, n;
@@ -352,6 +353,11 @@ static void app_reentrant(app_tok_t *t)
         app_in_cancel--;
         mon_after_cancel(was);
       }
+      break;
+    case RA_SETSERVERS:
+      /* replacing the server list from a completion callback: legal like any other channel call */
+      sim_note("reentrant_set_servers");
+      app_set_servers_now(0, 0);
       break;
     case RA_READONLY:
       {
@@ -1032,37 +1038,14 @@ static void app_wait_reinit(void)
 
 static void gen_alt_servers(int *idx, int *n, vh_rng_t *rng);
 
-static void app_do_action(app_act_t *a)
+/* replace the server list (scripted, or from inside a completion callback) */
+static void app_set_servers_now(int arg, int quiescent)
 {
-  a->done = 1;
-  switch (a->kind) {
-    case AA_START:
-      app_start_token(a->tok);
-      break;
-    case AA_CANCEL:
-      {
-        uint8_t was[APP_MAXTOK];
-        int     i;
-        memset(was, 0, sizeof(was));
-        for (i = 0; i < app_ntok; i++) {
-          /* a request whose entry point has not returned yet is not "accepted" yet */
-          was[i] = (uint8_t)(app_tok[i].started && app_tok[i].api_returned && app_tok[i].cb_count == 0);
-        }
-        sim_note("api_cancel");
-        case_ev(5, 0);
-        app_in_cancel++;
-        ares_cancel(app_channel);
-        app_in_cancel--;
-        mon_after_cancel(was);
-        mon_quiescent("cancel");
-        break;
-      }
-    case AA_SET_SERVERS:
-      {
+
         int  idx[SIM_MAXSRV], n = 0, x_rc;
         char csv[1024];
-        if (a->arg > 0) {
-          idx[0] = a->arg - 1; /* scripted: exactly this one server */
+        if (arg > 0) {
+          idx[0] = arg - 1; /* scripted: exactly this one server */
           n      = 1;
         } else {
           gen_alt_servers(idx, &n, &app_rng);
@@ -1101,9 +1084,39 @@ static void app_do_action(app_act_t *a)
             hl_config_hook(idx, n);
           }
         }
-        mon_quiescent("set_servers");
+        if (quiescent) {
+          mon_quiescent("set_servers");
+        }
+}
+
+static void app_do_action(app_act_t *a)
+{
+  a->done = 1;
+  switch (a->kind) {
+    case AA_START:
+      app_start_token(a->tok);
+      break;
+    case AA_CANCEL:
+      {
+        uint8_t was[APP_MAXTOK];
+        int     i;
+        memset(was, 0, sizeof(was));
+        for (i = 0; i < app_ntok; i++) {
+          /* a request whose entry point has not returned yet is not "accepted" yet */
+          was[i] = (uint8_t)(app_tok[i].started && app_tok[i].api_returned && app_tok[i].cb_count == 0);
+        }
+        sim_note("api_cancel");
+        case_ev(5, 0);
+        app_in_cancel++;
+        ares_cancel(app_channel);
+        app_in_cancel--;
+        mon_after_cancel(was);
+        mon_quiescent("cancel");
         break;
       }
+    case AA_SET_SERVERS:
+      app_set_servers_now(a->arg, 1);
+      break;
     case AA_SET_SORTLIST:
       sim_note("api_set_sortlist");
       ares_set_sortlist(app_channel, a->arg ? "10.0.0.0/8 fd5e::/16" : "192.168.0.0/16");
